@@ -2,6 +2,7 @@ import Model.Dkg
 import Proofs.DkgFlags
 import Proofs.DkgOnce
 import Proofs.DkgHonest
+import Proofs.DkgBlame
 
 /-! # C08 — DKG qualification is fair: honest never blamed, bad dealing never accepted
 
@@ -331,6 +332,40 @@ theorem honest_dealer_init (H : Honest O) (size threshold dealer : Nat) (hne : H
     keysIn K ({ size := size, threshold := threshold, me := H.me, dealer := dealer, running := true } : St O) :=
   ⟨hd_init H size threshold dealer hne, fun k c hc => by cases hc⟩
 
+/-! ### no honest participant is blamed by another honest participant (network level) -/
+
+open Proofs.DkgCommute Proofs.DkgAgree in
+/-- **honest never blamed**: in an execution of Feldman-VSS-Qual, no `Disqualify` / `FlagMisbehavior` callback of
+    the honest participant `mb` (during the three rounds, at the two timeouts, at `End`) targets the honest
+    participant `ma`, for every behaviour of the dealer and of the other participants, every private message and
+    every delivery order at `ma` and at `mb`; the only assumption is that what `mb` receives from `ma` by broadcast
+    in each round is what `ma`'s state machine broadcast in that round (reliable broadcast, round synchrony) -/
+theorem honest_never_blamed_by_honest (size threshold dealer ma mb : Nat) (hmad : ma ≠ dealer) (hmbd : mb ≠ dealer)
+    (hab : ma ≠ mb) (ra1 ra2 ra3 rb1 rb2 rb3 : List Dl)
+    (n1 : stream rb1 (ma, false) = (bR1 (fresh O size threshold ma dealer) ra1).map (Dl.bcast ma))
+    (n2 : stream rb2 (ma, false) = (bR2 (fresh O size threshold ma dealer) ra1 ra2).map (Dl.bcast ma))
+    (n3 : stream rb3 (ma, false) = (bR3 (fresh O size threshold ma dealer) ra1 ra2 ra3).map (Dl.bcast ma)) :
+    NoBlame ma (allOuts (fresh O size threshold mb dealer) rb1 rb2 rb3) :=
+  honest_never_blamed size threshold dealer ma mb hmad hmbd hab ra1 ra2 ra3 rb1 rb2 rb3 n1 n2 n3
+
+open Proofs.DkgCommute Proofs.DkgAgree in
+/-- an honest participant other than the dealer broadcasts at most one message in a whole execution: its complaint,
+    in the first round or at the first timeout; nothing in the third round -/
+theorem honest_broadcasts_one_complaint (size threshold me dealer : Nat) (hne : me ≠ dealer) (r1 r2 r3 : List Dl) :
+    bR3 (fresh O size threshold me dealer) r1 r2 r3 = [] ∧
+    ((bR1 (fresh O size threshold me dealer) r1 = [] ∧ bR2 (fresh O size threshold me dealer) r1 r2 = []) ∨
+     (bR1 (fresh O size threshold me dealer) r1 = [cmplMsg dealer] ∧ bR2 (fresh O size threshold me dealer) r1 r2 = []) ∨
+     (bR1 (fresh O size threshold me dealer) r1 = [] ∧ bR2 (fresh O size threshold me dealer) r1 r2 = [cmplMsg dealer])) :=
+  emission_once size threshold me dealer hne r1 r2 r3
+
+open Proofs.DkgCommute Proofs.DkgAgree in
+/-- whatever is delivered from `o`, nobody but `o` and the dealer is blamed; the one complaint of an honest
+    participant, delivered once before the second timeout, blames nobody but possibly the dealer -/
+theorem blame_targets (s : St O) (e : Dl) (A : Nat) (hA : A ≠ s.dealer) :
+    (A ≠ e.sender → NoBlame A (stepOuts s e)) ∧
+    (s.me ≠ s.dealer → s.complaintsTimeout = false → recvAt s A = false → NoBlame A (stepOuts s (zCmpl A s.dealer))) :=
+  ⟨step_noblame_other s e A hA, fun hme hct hr => step_noblame_complaint s A hA hme hct hr⟩
+
 /-! ### non-vacuity of the honest-dealer theorem: a concrete run that meets every hypothesis -/
 
 section NonVacuity
@@ -395,6 +430,23 @@ example : exec s0 [.bcast 0 (tagVerifVec :: vb), .priv 0 sb] [] [] = .keys 1 [] 
   · intro e he; cases he
   · intro e he; cases he
 
+open Proofs.DkgAgree in
+/-- non-vacuity of `honest_never_blamed_by_honest`: participant 1 gets no share, complains at the first timeout;
+    participant 2 receives the complaint in the second round; the hypotheses hold, and participant 2 does output
+    callbacks (it flags the dealer for a second vector) - none of them targets participant 1 -/
+example :
+    stream [.bcast 0 (tagVerifVec :: vb), .priv 0 sb, .bcast 0 (tagVerifVec :: vb)] (1, false) =
+      (bR1 (fresh triv 3 1 1 0) [.bcast 0 (tagVerifVec :: vb)]).map (Dl.bcast 1) ∧
+    stream [Dl.bcast 1 (cmplMsg 0)] (1, false) = (bR2 (fresh triv 3 1 1 0) [.bcast 0 (tagVerifVec :: vb)] []).map (Dl.bcast 1) ∧
+    stream [] (1, false) = (bR3 (fresh triv 3 1 1 0) [.bcast 0 (tagVerifVec :: vb)] [] []).map (Dl.bcast 1) ∧
+    allOuts (fresh triv 3 1 2 0) [.bcast 0 (tagVerifVec :: vb), .priv 0 sb, .bcast 0 (tagVerifVec :: vb)]
+      [Dl.bcast 1 (cmplMsg 0)] [] = [Out.flag 0, Out.disq 0] := by
+  have e1 : bR1 (fresh triv 3 1 1 0) [.bcast 0 (tagVerifVec :: vb)] = [] := by decide +kernel
+  have e2 : bR2 (fresh triv 3 1 1 0) [.bcast 0 (tagVerifVec :: vb)] [] = [cmplMsg 0] := by decide +kernel
+  have e3 : bR3 (fresh triv 3 1 1 0) [.bcast 0 (tagVerifVec :: vb)] [] [] = [] := by decide +kernel
+  rw [e1, e2, e3]
+  exact ⟨rfl, rfl, rfl, by decide +kernel⟩
+
 end NonVacuity
 
 end Props.C08
@@ -415,3 +467,6 @@ end Props.C08
 #print axioms Props.C08.complaint_answer_any_order
 #print axioms Props.C08.honest_dealer_never_disqualified
 #print axioms Props.C08.honest_dealer_init
+#print axioms Props.C08.honest_never_blamed_by_honest
+#print axioms Props.C08.honest_broadcasts_one_complaint
+#print axioms Props.C08.blame_targets
